@@ -35,6 +35,7 @@ type Scenario struct {
 	execWorkers       int
 	parserWorkers     int
 	crashAt           []int // step numbers at which the worker crashes and is restarted
+	watchMid          bool  // the command watcher also runs while actions are in flight (interleaved with them by the scheduler)
 	closeAt           int   // step number at which Close is issued (-1 = never)
 	cancelAt          int   // step number at which a cancel command is attempted (-1 never)
 	moreCancels       []int // further cancel attempts, as step distances after the previous one
@@ -301,6 +302,38 @@ func genScenario(rng *Rng, kind string) *Scenario {
 		s.retries = 1
 		s.continues = 0
 		s.dupPush = true
+	case "sharecmd":
+		// independent tasks on three workers; every main action stores fresh keys step by step; t1 fails at once and is
+		// retried while the others are still inside their actions, and the command watcher's round (list, re-arm, clear)
+		// is interleaved with their Sets by the scheduler
+		s.tasks = s.tasks[:0]
+		nt := 3 + rng.Intn(2)
+		s.scripts = map[string][]phaseScript{}
+		for i := 1; i <= nt; i++ {
+			id := fmt.Sprintf("t%d", i)
+			s.tasks = append(s.tasks, taskSpec{id: id, action: "A"})
+			var l []phaseScript
+			for att := 0; att < 3; att++ {
+				ps := phaseScript{}
+				if i > 1 || att > 0 {
+					for k := 0; k < 2+rng.Intn(3); k++ {
+						ps.ops = append(ps.ops, actOp{kind: 0, k: fmt.Sprintf("s%d.%d.%d", i, att, k), v: fmt.Sprintf("%s.run.%d.%d", id, att, k)})
+					}
+				}
+				l = append(l, ps)
+			}
+			s.scripts[id+"/run"] = l
+		}
+		s.scripts["t1/run"][0].outcome = 1
+		s.execWorkers = 3
+		s.parserWorkers = 1 + rng.Intn(2)
+		s.retries = 2
+		s.continues = 0
+		s.cmdMidFlight = true
+		s.watchMid = true
+		s.crashAt = nil
+		s.cancelAt = -1
+		s.closeAt = -1
 	case "duppath":
 		// a task reached by two paths (t5 <- t2, t4 <- t1) with an executable sibling between its two occurrences in
 		// the tree walk (t1's children are t2, t3, t4), one executor worker.  t3 and t5 are blocked by a pre-check; the
@@ -937,7 +970,17 @@ func runScenario(w *World, rng *Rng, s *Scenario, maxSteps int) *runResult {
 		}
 		// (in the scope of the Engine model one commander call at a time: two overlapping calls both pass the
 		// "no command pending" test and the second overwrites the first - monitor clause (11,6), other kinds)
-		if s.cmdMidFlight && s.retries > 0 && !closed && !e.anyIns(hasCmd) && rng.Chance(1, 6) && !(s.core && e.callInFlight(6)) {
+		if s.watchMid && !closed && e.anyIns(hasCmd) && !e.callInFlight(2) && !e.callInFlight(6) && rng.Chance(1, 3) {
+			par := e.par
+			e.spawn(2, "watchCmd", func() string {
+				if err := par.VerifWatchCmd(); err != nil {
+					return "err"
+				}
+				return "ok"
+			})
+			e.settle()
+		}
+		if s.cmdMidFlight && s.retries > 0 && !closed && !e.anyIns(hasCmd) && (rng.Chance(1, 6) || s.watchMid) && !((s.core || s.watchMid) && e.callInFlight(6)) {
 			if f := e.tasksWithStatus("failed", "canceled"); len(f) > 0 && len(e.tasksWithStatus("running", "ending")) > 0 {
 				s.retries--
 				ids := f
